@@ -6,7 +6,7 @@
    predicates are evaluated on the observed history alone. *)
 From Coq Require Import List ZArith Bool Lia.
 Import ListNotations.
-From Goat Require Import Base.Bytes Base.Explore Model.WireFormat Model.Transports Model.HttpLink.
+From Goat Require Import Base.Bytes Base.Explore Model.WireFormat Model.Transports Model.HttpLink Model.WsFrag.
 Open Scope Z_scope.
 
 (* ---------- equality on envelopes ---------- *)
@@ -274,6 +274,36 @@ Definition spec_ws (steps : list (list (wsact rpc bytes) * wsobs)) : bool :=
   ws_match (ws_sent_of (flat_map fst steps) (ws_write_events evs)) (ws_frame_results evs)
   && spec_ws_noerr (flat_map fst steps) evs.
 
+(* ---------- WebSocket at fragment level (Model/WsFrag.v): blocked Writes ---------- *)
+Record fobs := mkFObs {
+  fo_rets : list (Z * bool);    (* Write calls that returned during this step: (call, nil?) *)
+  fo_pend : list Z }.           (* Write calls still parked *)
+Definition fwst_eqb (a b : fwst) : bool :=
+  match a, b with FWait, FWait | FSend, FSend => true | FDone x, FDone y => Bool.eqb x y | _, _ => false end.
+Definition fwrite_eqb (a b : fwrite Z) : bool :=
+  (fw_env a =? fw_env b) && Nat.eqb (fw_left a) (fw_left b) && Bool.eqb (fw_ctx a) (fw_ctx b) && fwst_eqb (fw_st a) (fw_st b).
+Definition fev_eqb (a b : fev) : bool :=
+  match a, b with
+  | FEvFrag x, FEvFrag y | FEvLast x, FEvLast y | FEvRead x, FEvRead y => Nat.eqb x y
+  | FEvWRet x o, FEvWRet y p => Nat.eqb x y && Bool.eqb o p
+  | FEvReadErr, FEvReadErr => true
+  | _, _ => false
+  end.
+Definition fstate_eqb (a b : fstate Z) : bool :=
+  list_eqb fwrite_eqb (f_ws a) (f_ws b) && opt_eqb Nat.eqb (f_lock a) (f_lock b)
+  && list_eqb (fun x y => Nat.eqb (fst x) (fst y) && Bool.eqb (snd x) (snd y)) (f_wire a) (f_wire b)
+  && Nat.eqb (f_room a) (f_room b) && Bool.eqb (f_rd a) (f_rd b) && Bool.eqb (f_closed a) (f_closed b)
+  && list_eqb fev_eqb (f_log a) (f_log b).
+Definition fr_react_all (s : fstate Z) (acts : list (fact Z)) : option (list (fstate Z)) :=
+  let s1 := fold_left f_ext acts s in
+  explore fstate_eqb (succs_of f_rules (fun x => x)) 4000 [s1] [s1] [].
+Definition fr_predict (prev s : fstate Z) : fobs :=
+  mkFObs (flat_map (fun e => match e with FEvWRet w ok => [(Z.of_nat w, ok)] | _ => [] end) (skipn (length (f_log prev)) (f_log s)))
+         (pend_idx (fun x => match fw_st x with FDone _ => false | _ => true end) 0 (f_ws s)).
+Definition fobs_eqb (a b : fobs) : bool :=
+  multiset_eqb (fun x y => (fst x =? fst y) && Bool.eqb (snd x) (snd y)) (fo_rets a) (fo_rets b)
+  && list_eqb Z.eqb (fo_pend a) (fo_pend b).
+
 (* ====================================================================== *)
 (* HTTP                                                                    *)
 (* ====================================================================== *)
@@ -495,6 +525,10 @@ Inductive c19case :=
    200 for the second one). Whatever Write returned: the receiver reads every envelope AT MOST once, in write order,
    and at least the ones whose Write returned nil. [written] in write order, [read] what arrived before the marker. *)
 | CHttpE2EFault (written : list rpc) (write_ok : list bool) (read : list rpc)
+(* blocked WebSocket Writes (bounded relay, nobody reads), step by step against the fragment-level model
+   (Model/WsFrag.v: [room] fragments fit the wire); [holds]: both calls were parked and have returned an error at the
+   quiescent point after their contexts ended *)
+| CWsFrag (room : nat) (steps : list (list (fact Z) * fobs)) (holds : bool)
 (* a direct observation that the property requires to hold (code: see lib/props/C19.py).
    Code 3 is the sender's half of "written without error => read": the model of one GoatOverHttp has the far end
    as the environment of a Write ([HPostResult w ok]); since /repo 2aacfa6 [ok] reads "the POST was answered 200"
@@ -530,6 +564,10 @@ Definition check (c : c19case) : list nat :=
        | None => [] | Some _ => [1%nat] end) ++
       (if spec_http steps then [] else [2%nat]) ++
       (if spec_http_ctx_from 0 0 [] [] steps then [] else [3%nat])
+  | CWsFrag room steps holds =>
+      (match agree_from fr_react_all fr_predict fobs_eqb fstate_eqb 0 [f_init room] steps with
+       | None => [] | Some _ => [1%nat] end) ++
+      (if holds then [] else [2%nat])
   | CAssert _ b => if b then [] else [2%nat]
   | CHttpRaw b status delivered =>
       (* the classification IS the property (400 iff absent / unreadable / undecodable / no header /
